@@ -536,3 +536,28 @@ def _rxsf():
 
 
 SPECFUNCS.update(_rxsf())
+def _confz(v):
+    if hasattr(v, 'z'):
+        return v.z
+    if v.kind == 'dictlit':      # a dict display {k: v, ...} with constant str keys
+        has = z3.K(T.S, z3.BoolVal(False))
+        val = z3.K(T.S, T.Val.VN)
+        for key, x in v.items:
+            kz = key.z if hasattr(key, 'z') else z3.StringVal(key)
+            has = z3.Store(has, kz, True)
+            val = z3.Store(val, kz, to_val(x))
+        return T.Conf.mkconf(has, val)
+    raise Untranslated('not an option dictionary: %s' % v.kind)
+
+
+SPECFUNCS['sameconf'] = lambda ev, a, b: VBool(_confz(a) == _confz(b))     # the same option dictionary (as a value)
+
+
+def _sf_hasattr_tmp(ev, f):
+    for cls in ('Optional', 'Sequence'):
+        if ev.eng.is_subclass(f.cls, cls):
+            return VBool(z3.Select(ev.st.heap['%s.tmp?' % cls], f.z))
+    raise Untranslated('hasattr_tmp of %s' % f.cls)
+
+
+SPECFUNCS['hasattr_tmp'] = _sf_hasattr_tmp
